@@ -55,7 +55,7 @@ pub fn generate(g: &mut G, _index: u64) -> Scenario {
         sc.setup.push(Op::Drop { h: i });
     }
     let barrier = g.chance(1, 2);
-    for c in 0..npubs {
+    for _c in 0..npubs {
         let mut ops: Vec<Op> = (0..nsubs).map(|i| Op::Take { to: i }).collect();
         let n = g.range(2, 8);
         for _ in 0..n {
